@@ -38,11 +38,17 @@ fn config_text(r: &Rendered, generator: &str, rules: &[&str]) -> String {
         Some(m) => format!(", modules_identifier: '{}'", m),
         None => String::new(),
     };
+    let mode = if r.aliases.is_empty() {
+        format!("'{}'", r.mode)
+    } else {
+        let entries: Vec<String> = r.aliases.iter().map(|(k, v)| format!("'{}': '{}'", k, v)).collect();
+        format!("{{ name: '{}', use_luau_configuration: false, aliases: {{ {} }} }}", r.mode, entries.join(", "))
+    };
     format!(
-        "{{ generator: '{}', rules: [{}], bundle: {{ require_mode: '{}', excludes: [{}]{} }} }}",
+        "{{ generator: '{}', rules: [{}], bundle: {{ require_mode: {}, excludes: [{}]{} }} }}",
         generator,
         rule_list.join(", "),
-        r.mode,
+        mode,
         excludes.join(", "),
         ident
     )
@@ -87,6 +93,89 @@ fn process_files(files: Vec<(String, String)>, entry: String, config: String) ->
 
 pub fn run_real(r: &Rendered, generator: &str, rules: &[&str]) -> Real {
     process_files(r.files.clone(), r.entry.clone(), config_text(r, generator, rules))
+}
+
+static CHILD_COUNTER: std::sync::atomic::AtomicU64 = std::sync::atomic::AtomicU64::new(0);
+
+/// The same bundling in a CHILD process (this binary re-invoked with `--replay child:<file>`), so that a
+/// native stack overflow or an abort inside darklua — which no `catch_unwind` survives — is
+/// observed as a result instead of killing the harness. Used for cyclic graphs.
+pub fn run_real_isolated(r: &Rendered, generator: &str, rules: &[&str]) -> Real {
+    let n = CHILD_COUNTER.fetch_add(1, std::sync::atomic::Ordering::Relaxed);
+    let base = std::env::temp_dir().join(format!("dlv-c05-child-{}-{}", std::process::id(), n));
+    let input = base.with_extension("in.json");
+    let output = base.with_extension("out.json");
+    let payload = json!({"files": r.files.iter().map(|(p, c)| json!([p, c])).collect::<Vec<_>>(), "entry": r.entry, "config": config_text(r, generator, rules)});
+    if std::fs::write(&input, payload.to_string()).is_err() {
+        return run_real(r, generator, rules);
+    }
+    let exe = match std::env::current_exe() {
+        Ok(e) => e,
+        Err(_) => return run_real(r, generator, rules),
+    };
+    let spawned = std::process::Command::new(exe)
+        .args(["C05", "--replay", &format!("child:{}", input.display()), "--out", &output.display().to_string()])
+        .stdin(std::process::Stdio::null())
+        .stdout(std::process::Stdio::null())
+        .stderr(std::process::Stdio::null())
+        .spawn();
+    let mut child = match spawned {
+        Ok(c) => c,
+        Err(_) => return run_real(r, generator, rules),
+    };
+    let started = std::time::Instant::now();
+    let status = loop {
+        match child.try_wait() {
+            Ok(Some(status)) => break Some(status),
+            Ok(None) => {
+                if started.elapsed() > std::time::Duration::from_secs(40) {
+                    let _ = child.kill();
+                    let _ = child.wait();
+                    break None;
+                }
+                std::thread::sleep(std::time::Duration::from_millis(2));
+            }
+            Err(_) => break None,
+        }
+    };
+    let result = match status {
+        None => Real::Timeout,
+        Some(status) if !status.success() => Real::Panic(format!("the process running the bundler died ({}): native stack overflow or abort", status)),
+        Some(_) => {
+            let parsed = std::fs::read_to_string(&output).ok().and_then(|t| serde_json::from_str::<Value>(&t).ok());
+            let note = parsed.as_ref().and_then(|v| v["notes"][0].as_str()).and_then(|t| serde_json::from_str::<Value>(t).ok());
+            match note {
+                Some(v) => match (v["kind"].as_str(), v["text"].as_str()) {
+                    (Some("ok"), Some(t)) => Real::Ok(t.to_owned()),
+                    (Some("errors"), Some(t)) => Real::Errors(t.to_owned()),
+                    (Some("panic"), Some(t)) => Real::Panic(t.to_owned()),
+                    (Some("timeout"), _) => Real::Timeout,
+                    _ => Real::Panic("child: unreadable result".to_owned()),
+                },
+                None => Real::Panic("child: no result written".to_owned()),
+            }
+        }
+    };
+    let _ = std::fs::remove_file(&input);
+    let _ = std::fs::remove_file(&output);
+    result
+}
+
+/// the child side of `run_real_isolated`
+pub fn child_main(report: &mut Report, input: &str) {
+    let v: Value = match std::fs::read_to_string(input).ok().and_then(|t| serde_json::from_str(&t).ok()) {
+        Some(v) => v,
+        None => return,
+    };
+    let files: Vec<(String, String)> = v["files"].as_array().map(|a| a.iter().filter_map(|f| Some((f[0].as_str()?.to_owned(), f[1].as_str()?.to_owned()))).collect()).unwrap_or_default();
+    let real = process_files(files, v["entry"].as_str().unwrap_or("").to_owned(), v["config"].as_str().unwrap_or("").to_owned());
+    let (kind, text) = match real {
+        Real::Ok(t) => ("ok", t),
+        Real::Errors(t) => ("errors", t),
+        Real::Panic(t) => ("panic", t),
+        Real::Timeout => ("timeout", String::new()),
+    };
+    report.notes.push(json!({"kind": kind, "text": text}).to_string());
 }
 
 /// the same rules on a single file without bundling (to tell rule defects from bundling defects)
@@ -397,6 +486,7 @@ pub fn run_text(model: &mut Model, code: &str) -> Result<String, String> {
 pub fn rendered_json(r: &Rendered) -> Value {
     json!({
         "mode": r.mode, "entry": r.entry, "excludes": r.excludes, "modules_identifier": r.modules_identifier,
+        "aliases": r.aliases.iter().map(|(k, v)| json!([k, v])).collect::<Vec<_>>(),
         "files": r.files.iter().map(|(p, c)| json!([p, c])).collect::<Vec<_>>(),
         "shapes": r.shapes,
         "sites": r.sites.iter().map(|ss| ss.iter().map(|s| json!({"literal": s.literal, "string_form": s.string_form, "shadowed": s.shadowed, "target": s.target})).collect::<Vec<_>>()).collect::<Vec<_>>(),
@@ -411,6 +501,11 @@ pub fn rendered_from_json(v: &Value) -> Option<Rendered> {
     r.entry = v["entry"].as_str()?.to_owned();
     r.excludes = v["excludes"].as_array()?.iter().filter_map(|x| x.as_str().map(|s| s.to_owned())).collect();
     r.modules_identifier = v["modules_identifier"].as_str().map(|s| s.to_owned());
+    if let Some(list) = v["aliases"].as_array() {
+        for a in list {
+            r.aliases.push((a[0].as_str()?.to_owned(), a[1].as_str()?.to_owned()));
+        }
+    }
     for f in v["files"].as_array()? {
         r.files.push((f[0].as_str()?.to_owned(), f[1].as_str()?.to_owned()));
     }
